@@ -79,7 +79,9 @@ theorem cl_lockPrelude (h k : Nat) : ∀ (fuel : Nat) (a : Api) (limit : Limit) 
             (script.head?.getD defaultRound).acts hstep
           split
           · exact hp2
-          · exact ih _ _ _ _ hp2
+          · split
+            · exact hp2
+            · exact ih _ _ _ _ hp2
       · exact hstep
 
 theorem cl_lock (a : Api) (v : Variant) (h k : Nat) (limit : Limit) (h0 : Nat) (hp : P a.s) :
